@@ -201,6 +201,112 @@ def execute_sequence_cases(failures_add):
     return n
 
 
+def entrypoint_cases(failures_add):
+    """the REAL worker main loop (runner.entrypoint.entrypoint) over every order of a task sequence and the publications of its inputs, with the
+    loading of one input failing or not: whatever happens, the worker either dies (the executor's health check reports that) or runs / reports
+    every sequence whose inputs have all been announced - it never sits alive on a runnable sequence.  Also: no task is started before every
+    input it needs from outside the sequence was announced to this worker (C02's last sentence, reported under C02)."""
+    import cascade.executor.runner.entrypoint as ep
+    from cascade.executor.msg import DatasetPublished, DatasetPurge, TaskFailure, TaskSequence, WorkerShutdown
+    from cascade.executor.serde import ser_message
+    from cascade.low.core import DatasetId, JobInstance, TaskDefinition, TaskInstance, WorkerId
+    n = 0
+    w = WorkerId("h0", "w0")
+
+    def tdef(outs=("0",)):
+        return TaskDefinition(func=TaskDefinition.func_enc(lambda *a: 1), environment=[], entrypoint="", input_schema={}, output_schema={o: "Any" for o in outs})
+    job = JobInstance(tasks={t: TaskInstance(definition=tdef(), static_input_kw={}, static_input_ps={}) for t in ("a", "b", "c", "t")}, edges=[])
+    A, B, C = DatasetId("a", "0"), DatasetId("b", "0"), DatasetId("c", "0")
+    for inputs in ((A,), (A, B), (A, B, C)):
+        psrc = {"t": {i: d for i, d in enumerate(inputs)}, "a": {}, "b": {}, "c": {}}
+        ts = TaskSequence(worker=w, tasks=["t"], publish={DatasetId("t", "0")})
+        pubs = [DatasetPublished(origin=w, ds=d, transmit_idx=None) for d in inputs]
+        for pos in range(len(pubs) + 1):           # the task sequence arrives after `pos` of the publications
+            for order in itertools.permutations(pubs):
+                for failing in (None,) + inputs:   # the load of this input raises (shm answers with an error) while every process stays alive
+                    n += 1
+                    msgs = list(order[:pos]) + [ts] + list(order[pos:]) + [WorkerShutdown()]
+                    wire = [ser_message(m) for m in msgs]
+                    announced, ran, sent, started_early = set(), [], [], []
+
+                    class Sock:
+                        def bind(self, a):
+                            pass
+
+                        def recv(self):
+                            m = msgs[len(msgs) - len(wire)]
+                            if isinstance(m, DatasetPublished):
+                                announced.add(m.ds)
+                            return wire.pop(0)
+
+                    class Zmq:
+                        PULL = 1
+
+                        class Context:
+                            def socket(self, k):
+                                return Sock()
+
+                    class Mem:
+                        def __init__(self, *a):
+                            pass
+
+                        def __enter__(self):
+                            return self
+
+                        def __exit__(self, *a):
+                            return False
+
+                        def provide(self, ds, ann):
+                            if ds == failing:
+                                raise ValueError(f"shm: {ds} unavailable")
+                            return 1
+
+                        def pop(self, ds):
+                            pass
+
+                        def flush(self):
+                            pass
+
+                    class Pk:
+                        def __enter__(self):
+                            return self
+
+                        def __exit__(self, *a):
+                            return False
+
+                        def extend(self, e):
+                            pass
+
+                    def fake_run(task, ectx, memory):
+                        missing = [d for d in inputs if d not in announced]
+                        if missing:
+                            started_early.append((task, missing))
+                        for d in inputs:
+                            memory.provide(d, "Any")
+                        ran.append(task)
+                    saved = (ep.zmq, ep.Memory, ep.PackagesEnv, ep.run, ep.callback, ep.logging.config.dictConfig)
+                    ep.zmq, ep.Memory, ep.PackagesEnv, ep.run, ep.callback = Zmq, Mem, Pk, fake_run, (lambda addr, m: sent.append(m))
+                    ep.logging.config.dictConfig = lambda c: None
+                    died = None
+                    try:
+                        ep.entrypoint(ep.RunnerContext(workerId=w, job=job, callback="cb", param_source=psrc))
+                    except BaseException as e:  # noqa - the worker process dies: the executor's health check turns that into ExecutorFailure
+                        died = e
+                    finally:
+                        ep.zmq, ep.Memory, ep.PackagesEnv, ep.run, ep.callback, ep.logging.config.dictConfig = saved
+                    desc = {"inputs": [repr(d) for d in inputs], "sequence_after_publications": pos, "order": [repr(m.ds) for m in order], "load_fails_for": repr(failing)}
+                    reported = [m for m in sent if isinstance(m, TaskFailure)]
+                    if started_early:
+                        failures_add("C02/worker-starts-only-after-inputs-arrived", desc, f"task started before {started_early[0][1]} was announced to the worker", "other")
+                    if died is None and not ran and not reported:
+                        failures_add("C05/worker-never-sits-on-a-runnable-sequence", desc,
+                                     "every input of the sequence was announced, the worker is alive and idle, yet the sequence was neither run nor reported as failed "
+                                     "(the controller would wait for ever)", "other")
+                    if died is None and failing is not None and ran and not reported:
+                        failures_add("C05/failed-load-is-reported", desc, "the load of an input failed, the task 'ran' and no TaskFailure was reported", "other")
+    return n
+
+
 def bridge_and_controller(failures_add):
     """a failure notice - alone or in the same batch as ordinary events, before or after them - makes recv_events shut the executors
     down and raise; controller.run then ends with that error and shuts down (never a normal return, never a hang)"""
@@ -330,7 +436,7 @@ def run(out, tier, seed):
         failures.append({"obligation": ob, "inputs": desc, "observed": what[:500], "class": cls, "clause": ob})
     cases = 0
     parts = {}
-    for name, fn in (("healthcheck", healthcheck_cases), ("recv_loop", recv_loop_reports), ("execute_sequence", execute_sequence_cases),
+    for name, fn in (("healthcheck", healthcheck_cases), ("recv_loop", recv_loop_reports), ("execute_sequence", execute_sequence_cases), ("worker-loop", entrypoint_cases),
                      ("bridge+controller", bridge_and_controller), ("terminate/atexit", terminate_and_atexit)):
         try:
             parts[name] = fn(add)
@@ -340,6 +446,7 @@ def run(out, tier, seed):
             parts[name] = 0
         cases += parts[name]
     out.add_bounded("failure injection along the propagation chain", "exhaustive enumeration of injection points",
-                    f"healthcheck: 5^2 worker states x 4^2 helper states; executor loop: 4 injected faults; task bodies raising before/between/after outputs (1..3 outputs x 3 exception kinds); "
+                    f"healthcheck: 5^2 worker states x 4^2 helper states; executor loop: 4 injected faults; task bodies raising before/between/after outputs (1..3 outputs x 3 exception kinds); the real worker main loop over every order of a task "
+                    f"sequence and the publications of its 1..3 inputs with the load of none / each input failing; "
                     f"5 failure notices x 3 batch layouts through real Bridge.recv_events + controller.run; terminate over 2^3 started-worker patterns; Manager.atexit. cases per part: {parts}",
                     cases, cases, time.time() - t0, [{"parts": parts}], failures)
